@@ -55,3 +55,9 @@ claim("C19",
       "Structural isolation argument for the bucket store on every leveldb call site of package ldb: keys come only from the one key constructor (path+separator+key), index keys, or prefix iterators; every index write is dominated by validation of the name against the join separator; write buckets use only their own transaction, read-only buckets cannot write, BeginTx/Commit/Rollback map to the leveldb transaction; scans use path+separator prefixes and pathLen=len(path); the two bucket kinds agree operation-for-operation; db.Update has the rollback/commit shape.",
       "Trusted: go/ssa, goleveldb transaction semantics, util.BytesPrefix. NOT decided: map semantics for all operation sequences; adversarial keys beyond the separator rule; rdb (rocksdb tag, cgo) cannot be loaded and is out of scope.",
       "DESIGN.md §4 C19")
+
+claim("C20",
+      "handler provenance + edge-cut dominance in the 403 wrapper + constant evaluation (LAN table, listen address) + allow-edge census + clone comparison with the chain library + no-float effect check",
+      "Static: the only HTTP listener of the node serves accessControlHandler(inner, decision built from cfg.Whitelist/AllowedLan); inside, the inner handler runs only on the true edge of the decision on req.RemoteAddr and the false edge answers 403; gRPC binds a loopback constant; the LAN table evaluates to RFC 1918; every `return true` of the decision function is behind one of the four admitted tests and the lists come only from configuration; api.getBindingTarget is the chain library's construction and is fed (compressed key, default type, bl) / (plot id, chia type, k); the address derives from the same key; no floating point on the amount path.",
+      "Trusted: go/ssa, net/http handler semantics, mass-core as the chain library's definition. Exception recorded: the opt-in pprof server on http.DefaultServeMux (verified to carry no API handler). NOT decided: the allow decision for all address spellings, canonical form and round trip of all amounts (values).",
+      "DESIGN.md §4 C20")
